@@ -13,6 +13,9 @@ def run(ctx, rep):
     for cfg in cfgs:
         crate = ctx.mir(cfg)['logos']
         rt.rule_mapping_table(rep, crate, cfg)
+        rt.rule_bump(rep, crate, cfg)            # bytes bumped inside a callback extend the item: bump accepts every valid position
+        rt.rule_is_boundary(rep, crate, cfg)
+        rt.rule_frames(rep, crate, cfg)
     rep.analysed['configs'] = cfgs
     rt.rt_controls(rep, ctx, ['M-C13a'])
     rep.trusted += ['rustc nightly MIR construction', 'engines/mirfacts']
